@@ -53,7 +53,7 @@ def budget(tier):
 @st.composite
 def st_case(draw, tier):
     nengines = draw(st.integers(1, 5))
-    engines = tuple((draw(st.sampled_from(["it", "sql"])), draw(st.sampled_from(PRESETS))) for _ in range(nengines))
+    engines = tuple((draw(st.sampled_from(["it", "sql", "it", "sql", "it-init", "it-post"])), draw(st.sampled_from(PRESETS))) for _ in range(nengines))
     nthreads = draw(st.integers(2, 4 if tier == "quick" else 8))
     threads = []
     for _ in range(nthreads):
@@ -164,7 +164,32 @@ def make_engine(spec, sched, idx):
     from lsst.daf.relation import iteration, sql
 
     kind, preset = _spec(spec)
-    base = iteration.Engine if kind == "it" else sql.Engine
+    base = iteration.Engine if kind.startswith("it") else sql.Engine
+    if kind == "it-init":
+        # a user-defined engine with its own __init__ that sets the documented fields itself (the pattern of the toy
+        # engines in the library's own tests): nothing the dataclass-generated __init__ would have run has run
+        class OwnInit(base):
+            def __init__(self, name, relation_name_counter=0):
+                self.name = name
+                self.functions = {}
+                self.registry = {}
+                if relation_name_counter:
+                    self.relation_name_counter = relation_name_counter
+
+        base = OwnInit
+    elif kind == "it-post":
+        # a user-defined dataclass engine with a __post_init__ hook of its own (chains up if the base has one)
+        import dataclasses
+
+        @dataclasses.dataclass(repr=False, eq=False, kw_only=True)
+        class OwnPostInit(base):
+            def __post_init__(self):
+                up = getattr(super(), "__post_init__", None)
+                if up is not None:
+                    up()
+                self.functions.setdefault("vf_neg", lambda x: -x)
+
+        base = OwnPostInit
     if sched is None:
         return base(name=f"E{idx}", relation_name_counter=preset) if preset else base(name=f"E{idx}")
 
@@ -201,7 +226,7 @@ def request(engine, kind, what, prefix):
         return engine.get_relation_name(prefix)
     if what == "idleaf":
         # an unnamed leaf with no columns and exactly one row (a join identity) is still a new leaf that needs a name
-        if kind == "it":
+        if kind.startswith("it"):
             leaf = engine.make_leaf(set(), iteration.RowSequence([{}]), name_prefix=prefix)
         else:
             import sqlalchemy as sa
@@ -214,7 +239,7 @@ def request(engine, kind, what, prefix):
         raise AssertionError("no leaf")
     if what == "emptyleaf":
         # a leaf without rows is still a new leaf that gets a generated name with the requested prefix
-        if kind == "it":
+        if kind.startswith("it"):
             leaf = engine.make_leaf({A}, iteration.RowSequence([]), name_prefix=prefix)
         else:
             import sqlalchemy as sa
@@ -225,7 +250,7 @@ def request(engine, kind, what, prefix):
             if isinstance(n, LeafRelation):
                 return n.name
         raise AssertionError("no leaf")
-    if kind == "it":
+    if kind.startswith("it"):
         payload = iteration.RowSequence([{A: 1}, {A: 2}])
         leaf = engine.make_leaf({A}, payload, name_prefix=prefix) if what == "leaf" else engine.make_leaf({A}, payload, name="fixed")
     else:
